@@ -78,6 +78,10 @@ LocalSetRacingClose(ch, v, c) ==
   /\ subs' = {s \in subs : s[1] # c}
   /\ last' = <<"LocalRace", c, ch, v>>
 RemoteWrite(c, ch, v) == c \in open /\ Update(ch, v, c, "Remote")
+\* The application answers a read of connection c through an installed getter (OnValueGet) that returns v: the value is
+\* stored at that moment; the reader has it in its response, the subscribed others are notified (characteristic.go:109-114,
+\* the update runs with the reading connection as origin).
+GetterRead(c, ch, v) == c \in open /\ Update(ch, v, c, "Getter")
 
 \* one PUT entry carrying a value AND ev (hap/http/characteristics.go:128-150: the value is written first, then the
 \* subscription changes); sub = TRUE subscribes, FALSE unsubscribes
@@ -95,7 +99,7 @@ RemoteWriteEv(c, ch, v, sub) ==
 
 Next == \/ \E c \in Conn : Connect(c) \/ Close(c)
         \/ \E c \in Conn, ch \in Char : Subscribe(c, ch) \/ Unsubscribe(c, ch)
-        \/ \E ch \in Char, v \in Vals : LocalSet(ch, v) \/ \E c \in Conn : RemoteWrite(c, ch, v) \/ LocalSetRacingClose(ch, v, c)
+        \/ \E ch \in Char, v \in Vals : LocalSet(ch, v) \/ \E c \in Conn : RemoteWrite(c, ch, v) \/ LocalSetRacingClose(ch, v, c) \/ GetterRead(c, ch, v)
         \/ \E ch \in Char, v \in Vals, c \in Conn, sub \in BOOLEAN : RemoteWriteEv(c, ch, v, sub)
 Spec == Init /\ [][Next]_vars
 
@@ -109,7 +113,7 @@ WantNext == want' = CASE last'[1] \in {"Sub", "RemoteSub"} /\ last'[3] \in Event
 GNext == Next /\ WantNext
 GSpec == GInit /\ [][GNext]_<<vars, want>>
 
-Expected(c) == IF /\ last'[1] \in {"Local", "Remote", "LocalRace", "RemoteSub", "RemoteUnsub"}
+Expected(c) == IF /\ last'[1] \in {"Local", "Remote", "Getter", "LocalRace", "RemoteSub", "RemoteUnsub"}
                   /\ last'[4] # val[last'[3]]
                   /\ c \in open /\ c # last'[2] /\ <<c, last'[3]>> \in want
                THEN {<<last'[3], last'[4]>>} ELSE {}
